@@ -172,6 +172,9 @@ func exercise(c *Case, b []byte, typ reflect.Type, heavy bool) string {
 		}},
 		{"Decoder(stuttering reader, one large piece)", func() {
 			// a read that returns no data and no error, then everything at once (more than the initial window)
+			if len(b) > 100000 {
+				return // the large bombs go through the plain readers above
+			}
 			data := append(bytes.Repeat([]byte(" "), 600), b...)
 			d := gojson.NewDecoder(jsongen.NewChunkReader(data, []int{0, len(data)}))
 			d.Decode(reflect.New(typ).Interface())
